@@ -647,7 +647,7 @@ pub fn err_program(r: &mut Rng) -> String {
     r.shuffle(&mut cs);
     let (c1, c2, c3, c4) = (cs[0], cs[1], cs[2], cs[3]);
     let n = r.range(2, 9);
-    match r.below(34) {
+    match r.below(38) {
         0 => format!("from {t} | select {{{c1}, {c2}, {c3}}} | derive {{{c4} = {c1}}} | filter zz_{n} > 1\n"),
         1 => format!("from a = {t} | join b = {u} (=={c1}) | join c = {t} (=={c1}) | select {{{c1}, {c2}}}\n"),
         2 => format!("from {t} | sort {c1} foo:{n} bar:2 baz:3\n"),
@@ -684,7 +684,12 @@ pub fn err_program(r: &mut Rng) -> String {
         30 => format!("from {t} | derive {{x = s\"COALESCE({{{c1}}}, {{{c2}\", y = {c3}}}\n"),
         31 => format!("from {t} | derive {{x = f\"{{{c1}}}-{{}}-{{{c2}}}\"}} | select {{x, {c3}}}\n"),
         32 => format!("from {t} | filter s\"{{{c1}}} > {{ {n}\" | take {n}\n"),
-        _ => format!("from s\"SELECT * FROM {t} WHERE {{}} = {{{c1}\" | select {{{c2}}}\n"),
+        33 => format!("from s\"SELECT * FROM {t} WHERE {{}} = {{{c1}\" | select {{{c2}}}\n"),
+        // lexer errors behind multi-byte text (byte offsets and character offsets differ)
+        34 => format!("# été 日本語 🦀\nfrom {t} | derive {{x = 'straße', y = 'łódź{n}}} | select {{{c1}, \"unterminated}}\n"),
+        35 => format!("from {t} | filter {c1} == 'naïve café {n}' | derive z = {c2} ^^ §{n} | take {n}\n"),
+        36 => format!("from {t} # ↓ данные {n}\n| select {{`größe`, {c1}}} | filter {c2} == 'abc{n}\n"),
+        _ => format!("let größe_{n} = 'ß' \nfrom {t} | derive {{a = \"ünï{n}\", b = {c1} @@ 3}}\n"),
     }
 }
 
@@ -715,6 +720,50 @@ pub fn non_ascii_variant(src: &str, r: &mut Rng) -> String {
 /// A near-duplicate of a program: same length, same beginning and end, one
 /// small edit in between (what an editor re-compiling a buffer produces).
 pub fn variant_of(src: &str, r: &mut Rng) -> String {
+    let v = variant_once(src, r);
+    // sometimes two edits: a slip fixed here, a letter changed there
+    if r.below(3) == 0 {
+        variant_once(&v, r)
+    } else {
+        v
+    }
+}
+
+/// The typo moves: a stray character is fixed and the same slip is made further down (same
+/// length, same bytes; the first error now lies behind the old one).
+fn move_typo(src: &str, r: &mut Rng) -> Option<String> {
+    let bytes = src.as_bytes();
+    let i = bytes.iter().position(|b| matches!(b, b'^' | b'@' | b'$' | b'~'))?;
+    let later: Vec<usize> = (i + 2..bytes.len()).filter(|&j| bytes[j] == b' ').collect();
+    if later.is_empty() {
+        return None;
+    }
+    let j = later[r.below(later.len())];
+    let mut v = bytes.to_vec();
+    v.swap(i, j);
+    String::from_utf8(v).ok()
+}
+
+/// Same number of BYTES, other number of characters: a two- or three-byte letter becomes
+/// as many ASCII letters somewhere in the text.
+fn non_ascii_same_bytes(src: &str, r: &mut Rng) -> Option<String> {
+    let idx: Vec<(usize, char)> = src
+        .char_indices()
+        .filter(|(_, c)| c.len_utf8() > 1 && c.len_utf8() < 4)
+        .collect();
+    if idx.is_empty() {
+        return None;
+    }
+    let (i, c) = idx[r.below(idx.len())];
+    let repl: String = "xyz".chars().take(c.len_utf8()).collect();
+    let mut out = String::with_capacity(src.len());
+    out.push_str(&src[..i]);
+    out.push_str(&repl);
+    out.push_str(&src[i + c.len_utf8()..]);
+    Some(out)
+}
+
+fn variant_once(src: &str, r: &mut Rng) -> String {
     if r.below(3) == 0 {
         // the same text moved to another offset: everything keyed by content but carrying
         // positions (spans, locations) must follow
@@ -723,6 +772,16 @@ pub fn variant_of(src: &str, r: &mut Rng) -> String {
             1 => format!("\n\n{src}"),
             _ => format!("let unused_{} = 1\n{src}", r.below(100)),
         };
+    }
+    if r.below(4) == 0 {
+        if let Some(out) = move_typo(src, r) {
+            return out;
+        }
+    }
+    if !src.is_ascii() && r.below(2) == 0 {
+        if let Some(out) = non_ascii_same_bytes(src, r) {
+            return out;
+        }
     }
     let b: Vec<char> = src.chars().collect();
     if b.len() < 24 {
@@ -858,6 +917,18 @@ fn pick_opts(r: &mut Rng, dialect_sensitive: bool) -> Opts {
     }
 }
 
+/// Programs that made the pinned tree panic (resolver `todo!`s, internal operators, error
+/// composition): used as calls whatever they do on the tree under test — panic, error or
+/// succeed — because code around panics is where cleanup gets skipped.
+pub const FRAGILE: &[&str] = &[
+    "from t | select (tuple_every [a])",
+    "from t | select (_eq a)",
+    "from t | select {a, b} | append (from u | select {c})",
+    "let f = x -> internal std.no_such_op\nfrom t | select (f a)",
+    "from t | select `*`",
+    "from albums | select {b, x} | append (from orders | select {b, x, end})",
+];
+
 /// programs whose SQL differs between dialects (quoting, take, //, regex, dates)
 const DIALECT_SENSITIVE: &[&str] = &[
     "from employees | filter name ~= 'x' | take 3 | select {`first name`, b}",
@@ -936,6 +1007,33 @@ impl<'a> Gen<'a> {
                     opts: pick_opts(r, dialect_sensitive),
                 }
             }
+            13 if r.below(2) == 0 => {
+                // an editor's buffer edited in place: the previous text is a near-duplicate
+                let a = if r.below(2) == 0 {
+                    // text where byte offsets and character offsets part ways, with a slip in it
+                    let t = r.pick(TABLES);
+                    let n = r.range(2, 9);
+                    match r.below(3) {
+                        0 => format!("from {t} | filter a == 'naïve café {n}' | derive z = b ^ 2 | select {{z, `größe`}} | take {n}   # ↓ łódź\n"),
+                        1 => format!("# été 日本語 🦀\nfrom {t} | derive {{x = 'straße'}} | filter x @ {n} | sort {{x, -a}} | take {n}   \n"),
+                        _ => format!("from {t} | select {{`ünï`, a, b}} | filter a $ {n} | derive {{c = 'Ænima'}} | sort c | take {n}  \n"),
+                    }
+                } else {
+                    src
+                };
+                let b = if r.below(2) == 0 {
+                    // a slip fixed and made again further down, and a letter changed before it
+                    let m = move_typo(&a, r).unwrap_or_else(|| a.clone());
+                    non_ascii_same_bytes(&m, r).unwrap_or(m)
+                } else {
+                    variant_of(&a, r)
+                };
+                if r.below(2) == 0 {
+                    Op::EditInPlace { before: a, src: b }
+                } else {
+                    Op::EditInPlace { before: b, src: a }
+                }
+            }
             13..=15 => Op::Fmt { src },
             16..=17 => Op::Rq { src },
             _ => Op::Tokens { src },
@@ -1003,6 +1101,12 @@ impl<'a> Gen<'a> {
             via_hashmap: false,
             dups: Vec::new(),
             via_insert: false,
+            sibling_first: false,
+            abs_prefix: match r.below(8) {
+                0 => Some("/tmp".to_string()),
+                1 => Some("/usr".to_string()),
+                _ => None,
+            },
             main_path: p.main_path,
             opts,
         }
@@ -1043,6 +1147,21 @@ impl<'a> Gen<'a> {
                     *via_hashmap = false;
                 }
                 *via_insert = !*via_hashmap && r.below(4) == 0;
+            }
+            if let Op::Project {
+                via_hashmap,
+                dups,
+                via_insert,
+                sibling_first,
+                ..
+            } = &mut o
+            {
+                if r.below(5) == 0 {
+                    *sibling_first = true;
+                    *via_hashmap = false;
+                    *via_insert = false;
+                    dups.clear();
+                }
             }
             calls.push(Call {
                 op: o,
@@ -1240,6 +1359,9 @@ impl<'a> Gen<'a> {
                         src: r.pick(panickers).clone(),
                         opts: pick_opts(&mut r, false),
                     };
+                } else if r.below(25) == 0 {
+                    let f = r.pick(FRAGILE).to_string();
+                    c.op = self.op_for_src(&mut r, f, false);
                 }
                 if fault_panic_inj && r.below(5) == 0 {
                     c.panic_at = Some(match r.below(3) {
@@ -1259,6 +1381,21 @@ impl<'a> Gen<'a> {
                         _ => Some("1.2.3".to_string()),
                     };
                     calls.push(Call::plain(Op::SetEnv { value: v }));
+                }
+                if fault_env && nthreads == 1 && r.below(3) == 0 {
+                    // a project addressed by absolute paths, around a change of directory
+                    let mut po = self.project_op(&mut r, None);
+                    if let Op::Project { abs_prefix, .. } = &mut po {
+                        *abs_prefix = Some(r.pick(&["/tmp", "/usr"]).to_string());
+                    }
+                    calls.push(Call::plain(po.clone()));
+                    let d = *r.pick(&["/tmp", "/usr", "/"]);
+                    calls.push(Call::plain(Op::SetCwd { dir: d.to_string() }));
+                    calls.push(Call::plain(po));
+                }
+                if fault_env && nthreads == 1 && r.below(4) == 0 {
+                    let d = *r.pick(&["/tmp", "/usr", "/", "/tmp/project"]);
+                    calls.push(Call::plain(Op::SetCwd { dir: d.to_string() }));
                 }
             }
             let _ = t;
@@ -1318,6 +1455,9 @@ impl<'a> Gen<'a> {
                         src: r.pick(panickers).clone(),
                         opts: pick_opts(&mut r, true),
                     };
+                } else if r.below(12) == 0 {
+                    let f = r.pick(FRAGILE).to_string();
+                    c.op = self.op_for_src(&mut r, f, true);
                 }
                 if fault_panic_inj && r.below(6) == 0 {
                     c.panic_at = Some(match r.below(3) {
